@@ -291,6 +291,11 @@ pub fn replay(path: &str) -> i32 {
             }
             code
         }
+        Some("crash") => {
+            let suite = r["suite"].as_str().unwrap_or("");
+            let hist: Vec<u16> = r["history_indices"].as_array().map(|a| a.iter().map(|x| x.as_u64().unwrap() as u16).collect()).unwrap_or_default();
+            crashprops::replay(suite, &hist, r["image"].as_str().unwrap_or(""))
+        }
         Some("sched") => {
             let prop = v["property"].as_str().unwrap_or("");
             let name = r["program"].as_str().unwrap_or("");
